@@ -121,6 +121,7 @@ struct World
   bool useReplay = false;
   std::uint64_t rng = 1;
   long steps = 0;
+  int lastRun = 0;            // thread of the most recent `run` choice
   long long vtime = 0;
   bool dead = false, limit = false, diverge = false, done = false;
   std::string report;
@@ -282,7 +283,7 @@ void reschedule(Thr* me)
     else if (W->useReplay)
     {
       // list exhausted: deterministic completion, lowest enabled thread first, time-outs only when nothing else can run
-      if (!R.empty()) { kind = 0; tid = R[0]; }
+      if (!R.empty()) { kind = 0; tid = (g_opt.continueCurrent && has(R, W->lastRun)) ? W->lastRun : R[0]; }
       else if (!T.empty()) { kind = 1; tid = T[0]; }
       else { W->dead = true; abandon(me, "DEADLOCK"); return; }
     }
@@ -324,6 +325,7 @@ void reschedule(Thr* me)
       ev(tid, SPURIOUS, nullptr, 0);
       continue;
     }
+    W->lastRun = tid;
     if (n == me) { runlock(); return; }
     sem_post(&n->sem);
     runlock();
